@@ -11,11 +11,22 @@ import (
 
 // UnaryCrashInterceptor 用于一元请求的异常捕获拦截器。
 func UnaryCrashInterceptor(ctx context.Context, req interface{}, _ *grpc.UnaryServerInfo, handler grpc.UnaryHandler) (resp interface{}, err error) {
-	defer handleCrash(func(r interface{}) {
-		err = toPanicError(r)
-	})
+	// handler 正常返回才置为 true：go.mod 声明 go 1.19，panic(nil) 时 recover() 返回 nil，
+	// 单看 recover 的返回值会把这次 panic 当成正常结束，调用方得到 (nil, nil)
+	completed := false
+	defer func() {
+		r := recover()
+		if r == nil && !completed {
+			r = "panic(nil)"
+		}
+		if r != nil {
+			err = toPanicError(r)
+		}
+	}()
 
-	return handler(ctx, req)
+	resp, err = handler(ctx, req)
+	completed = true
+	return resp, err
 }
 
 // StreamCrashInterceptor 捕获 stream 请求和 recover() 中的 panics。
